@@ -426,6 +426,8 @@ pub fn build(t: &Term, w: &W) -> O {
             }
           }
           "probe2" => build(&Term::leaf("probe", 2), &w),
+          // inner observable with an operator (and hence a closure of its own) in front of the hot source
+          "probe2map" => build(&Term::un("map", 0, "inc", Term::leaf("probe", 2)), &w),
           // inner observable that emits 10x+1 and completes from a new logical thread
           "acold" => {
             let mut t = Term::leaf("acold", x);
